@@ -118,7 +118,49 @@ def single_checker(run, model, rule="C14.single-checker"):
             run.check(bad is None, rule, construct, "find first; create iff none; add once; return %s" % ("the given function" if found else "the new checker"), bad or "", fi.loc(), None, construct.split("[", 1)[1])
 
 
+def class_creation(run, model, rule="C14.class-creation"):
+    """The metaclass hands everything it was given on to ``type.__new__``: name, bases, the namespace and the class
+    keyword arguments (``class C(Base, key=value)`` -> ``__init_subclass__``), and returns the class it got back."""
+    fi = model.method("_metaclass", "DBCMeta", "__new__")
+    flow = get_flow(model, fi)
+    run.saw(flow)
+    a = fi.node.args
+    pos = [x.arg for x in a.posonlyargs + a.args]
+    sup = []
+    for n in flow.cfg.nodes:
+        for call, c, aw in calls_in(n):
+            f_ = call.func
+            if isinstance(f_, ast.Attribute) and f_.attr == "__new__" and isinstance(f_.value, ast.Call) and isinstance(f_.value.func, ast.Name) and f_.value.func.id == "super":
+                sup.append((n, call))
+    bad = None
+    where = None
+    if len(sup) != 1:
+        bad = "the class is not created by exactly one super().__new__ call (%d found)" % len(sup)
+    else:
+        n, call = sup[0]
+        where = n
+        got = [strip_sites(flow.term(x, n)) for x in call.args if not isinstance(x, ast.Starred)]
+        if got != [("param", p) for p in pos]:
+            bad = "super().__new__ receives (%s), not the metaclass's own (%s) in that order" % (", ".join(show(x, 30) for x in got), ", ".join(pos))
+        elif any(isinstance(x, ast.Starred) for x in call.args) or any(kw.arg is not None for kw in call.keywords):
+            bad = "super().__new__ receives additional arguments"
+        elif a.kwarg is not None:
+            stars = [strip_sites(flow.term(kw.value, n)) for kw in call.keywords if kw.arg is None]
+            if stars != [("param", a.kwarg.arg)]:
+                bad = "the class keyword arguments (**%s) are not handed on to super().__new__: `class C(Base, key=value)` no longer reaches __init_subclass__ of the base" % a.kwarg.arg
+        if bad is None:
+            created = strip_sites(flow.term(call, n))
+            for r in flow.cfg.nodes:
+                if r.kind == "return" and r.ast is not None and strip_sites(flow.term(r.ast, r)) != created:
+                    bad = "the metaclass returns %s, not the class created by type.__new__" % show(strip_sites(flow.term(r.ast, r)), 60)
+                    where = r
+    if a.kwarg is None and bad is None:
+        bad = "DBCMeta.__new__ accepts no class keyword arguments (**kwargs): `class C(Base, key=value)` fails for contract classes only"
+    run.check(bad is None, rule, fi.qual, "super().__new__(mlcs, name, bases, namespace, **kwargs); its result is returned", bad or "", fi.loc(where) if where is not None else fi.loc(), None, first_line(where.stmt) if where is not None else None)
+
+
 def run(run, model):
+    run.do(class_creation, model)
     run.do(gates.c02_result_identity, model, "C14.result-identity", "C14.forward")
     run.do(gates.c02_exc_transparent, model, "C14.exc-transparent")
     run.do(c05.order_identity, model, "C14.forward-order", "C14.forward")
@@ -137,3 +179,4 @@ def run(run, model):
     run.minimum("C14.single-checker", 4)
     run.minimum("C14.colour", 2)
     run.minimum("C14.new-guard", 1)
+    run.minimum("C14.class-creation", 1)
